@@ -59,6 +59,7 @@ package circularQueue
 //@ ensures[C18] len(result) == len(cb.Items) && fresh(result)
 //@ ensures[C18] forall(j, 0, len(result), result[j] == cb.Items[lo + j])
 //@ loop 1
-//@ invariant[C18] len(result) == rangeindex + 1 && fresh(result) && len(keys) == len(cb.Items)
+//@ invariant fresh(result)
+//@ invariant[C18] len(result) == rangeindex + 1 && len(keys) == len(cb.Items)
 //@ invariant[C18] forall(j, 0, len(keys), keys[j] == lo + j)
 //@ invariant[C18] forall(j, 0, len(result), result[j] == cb.Items[lo + j])
